@@ -17,7 +17,7 @@ type family struct {
 	N         int
 	W         int
 	WSet      []uint32 // explicit difficulty alphabet (overrides W)
-	Forbidden bool // additionally: each node in turn on the forbidden list
+	Forbidden bool     // additionally: each node in turn on the forbidden list
 	Filter    func(core.Blueprint) bool
 	Name      string
 }
